@@ -80,12 +80,15 @@ Definition st (p : loc) (v : cell) : DM unit :=
 
 Definition is_buf (p : loc) : bool := match p with LBuf _ => true | _ => false end.
 
-(** [*p = v]: drops the old value, then stores.  The destination belongs to the caller: what is dropped there is the caller's. *)
-Definition assign (E : denv) (p : loc) (v : cell) : DM unit :=
-  old <~ rd E p ;; (if is_buf p then emit E (store_ev SAssign old) else dret tt) ;;~ st p v.
-(** [p.write(v)]: stores without looking at the old contents *)
-Definition write_ (E : denv) (p : loc) (v : cell) : DM unit :=
-  old <~ rd E p ;; (if is_buf p then emit E (store_ev SWrite old) else dret tt) ;;~ st p v.
+(** a store into a place, in one of the ledger modes of the Model ([SAssign]: [*p = v] drops the old value first, an all-zero one
+    included; [SWrite]: [p.write(v)] does not look at the old contents; [SInit]: drop it unless it is all-zero).  The destination
+    belongs to the caller: what is dropped there is the caller's. *)
+Definition store_mode (E : denv) (m : smode) (p : loc) (v : cell) : DM unit :=
+  old <~ rd E p ;; emit E (if is_buf p then store_ev m old else []) ;;~ st p v.
+(** [*p = v] *)
+Definition assign (E : denv) (p : loc) (v : cell) : DM unit := store_mode E SAssign p v.
+(** [p.write(v)] *)
+Definition write_ (E : denv) (p : loc) (v : cell) : DM unit := store_mode E SWrite p v.
 (** the same with a value MOVED in by the caller: the buffer takes ownership *)
 Definition assign_move (E : denv) (p : loc) (v : cell) : DM unit := assign E p v ;;~ emit E [LTake v].
 Definition write_move (E : denv) (p : loc) (v : cell) : DM unit := write_ E p v ;;~ emit E [LTake v].
